@@ -30,6 +30,9 @@ with contextlib.redirect_stdout(io.StringIO()), contextlib.redirect_stderr(io.St
     from openfilter.filter_runtime.utils import adict, hide_uri_users_and_pwds, hide_uri_pwds
     from openfilter.filter_runtime.filters.video_in import VideoIn, VideoReader
     from openfilter.filter_runtime.filters.video_out import VideoOut
+    import openfilter.filter_runtime.filters.video_in as _VI
+    _vi_sleep = _VI.sleep
+    _VI.sleep = lambda t: _vi_sleep(min(t, 0.01))       # waits between attempts / frames are cut short, not skipped
     from openfilter.filter_runtime.filters.image_in import ImageIn
     from openfilter.filter_runtime.filters.image_out import ImageOut
     from openfilter.filter_runtime.filters.util import Util
@@ -80,6 +83,10 @@ class FakeStream:
     framerate = 30.0
 class FakeVideoGear:
     def __init__(self, source=None, **kw):
+        if getattr(BOX, 'fail_opens', 0) > 0:
+            # a camera / RTSP proxy that is still coming up refuses the connection (vidgear's message does not name the source)
+            BOX.fail_opens -= 1
+            raise RuntimeError('[CamGear:ERROR] :: Source is invalid, CamGear failed to initialize stream on this source!')
         self.source, self.stream, self.n, self.release = source, FakeStream(), 0, threading.Event()
         BOX.streams.append(self)
     def start(self):
@@ -298,6 +305,9 @@ def gen_secret(rng, plain=False, comma=False):
         # two '!' in the password, the part between them spelling a word (an option name), the last part not: the text is cut at
         # the LAST part that does not look like an option, so all of this stays with the URI
         post = rng.choice(['!fps!3x', '!a!0', '!maxfps!9-', '!x1!#', '!loop!-'])
+    if rng.random() < 0.04:
+        # a long access token used as the password (credentials have no maximum length)
+        pre = ''.join(rng.choice('abcdefXYZ0123456789-_.~') for _ in range(rng.randint(60, 140))) + pre
     return pre + core + post
 
 def gen_user(rng, plain=False, comma=False):
@@ -306,6 +316,8 @@ def gen_user(rng, plain=False, comma=False):
         alpha += ',,,,'
     if rng.random() < 0.06:
         return rng.choice(['ops%40plant.example', 'a%40b', 'cam%40site-7'])      # an e-mail address as user name, '@' percent-encoded as it must be
+    if rng.random() < 0.03:
+        return ''.join(rng.choice('abcdefXYZ0123456789-_.~') for _ in range(rng.randint(64, 100)))     # a service-account name
     return ''.join(rng.choice(alpha) for _ in range(rng.randint(1, 6)))
 
 def gen_uri(rng, scheme=None, plain=False, cred=True, empty_user=False, rest=None, host=None, comma=False):
@@ -536,7 +548,8 @@ def gen_filter_case(rng, i):
             note += ' / error: unknown option'
         if rng.random() < 0.3:
             opt_secret(items)
-        return dict(cls='VideoIn', config={'__k': top_kind, 'items': items}, secrets=secrets, note=note)
+        faults = rng.choice([1, 2, 5]) if rng.random() < 0.3 else 0       # the first connection attempts to the stream are refused
+        return dict(cls='VideoIn', config={'__k': top_kind, 'items': items}, secrets=secrets, note=note + (' / %d refused connections' % faults if faults else ''), open_faults=faults)
     if r < 0.88:                                           # VideoOut
         u = gen_uri(rng, scheme='rtsp', plain=rng.random() < 0.7, rest=rng.choice(['/live', '/out', '']), host=rng.choice(['srv:8554', 'media.example:8554']))
         secrets.append(dict(pw=u['pw'], how='output', idx=0, uri=u['text'], user=u['user']))
@@ -658,6 +671,7 @@ def fixed_filter_cases():
 def drive(case):
     """run the real code on one case -> observation dict"""
     BOX.reset()
+    BOX.fail_opens = case.get('open_faults', 0)
     CAP.records, CAP.logged = [], []
     cls = CLASSES[case['cls']]
     config = build(case['config'])
@@ -755,7 +769,7 @@ def filter_oracle(run, case, obs):
     frame meta"""
     cname = case['cls']
     err_path = obs['ctor_exc'] is not None
-    rcase = dict(family='filter', cls=cname, config=case['config'], secrets=case['secrets'], note=case['note'], debug=bool(case.get('debug')))
+    rcase = dict(family='filter', cls=cname, config=case['config'], secrets=case['secrets'], note=case['note'], debug=bool(case.get('debug')), open_faults=case.get('open_faults', 0))
     for sec in case['secrets']:
         pw = sec['pw']
         if not pw:
@@ -951,7 +965,7 @@ def replay(run):
         scanner_oracle(run, case['text'], case['meta'], got, case['fn'])
         run.seen(('s', case['text']))
     elif case.get('family') == 'filter':
-        c = dict(cls=case['cls'], config=case['config'], secrets=case['secrets'], note=case.get('note', 'replay'))
+        c = dict(cls=case['cls'], config=case['config'], secrets=case['secrets'], note=case.get('note', 'replay'), debug=case.get('debug', False), open_faults=case.get('open_faults', 0))
         obs = drive(c)
         for name, func, level, msg in obs['records']:
             print('replay log: %s.%s %s %s' % (name, func, level, msg[:300]))
